@@ -64,8 +64,17 @@ PLAN = {
  "C13h-view-individuals-even-shape": ["C13", "C03"], "C14h-pixy-take-after-skip": ["C14"], "C15h-trim-ascii-end-before-detect": ["C15", "C07"],
  "C16h-array-new-prefix-product": ["C16"], "C17h-keep-list-longer-than-axes": ["C17"], "C18h-final-newline-write-not-all": ["C18"],
  "C19h-view-iter-clone-resets-coords": ["C19"],
+ # round 9
+ "C01i-detect-prefix-exhausted-le": ["C01", "C12"], "C02i-allocatable-guard-unprojected": ["C02"], "C03i-project-allocates-before-check": ["C03", "C17"],
+ "C04i-keep-list-bit-mask": ["C04"], "C05i-fold-centre-by-flat-index": ["C05"], "C06i-tajima-pairs-clamped": ["C06"],
+ "C07i-npy-header-no-pad-when-aligned": ["C07", "C15"], "C08i-vcf-contig-through-header": ["C08"], "C09i-population-map-by-printed-name": ["C09"],
+ "C10i-rust-log-honoured": ["C10", "C01"], "C11i-bcf-delivered-reset-moved": ["C11", "C12"], "C12i-bcf-zero-records-error": ["C12", "C11"],
+ "C13i-text-writer-blocks-unseparated": ["C13", "C07"], "C14i-fst-first-axis-clamped": ["C14"], "C15i-fortran-one-axis-accepted": ["C15"],
+ "C16i-npy-cut-at-next-magic": ["C16"], "C17i-zero-axis-npy-shape": ["C17"], "C18i-prefix-skipped-when-compression-preset": ["C18"],
+ "C19i-view-iter-last-override": ["C19"],
 }
-seeds = sys.argv[1:] or sorted(PLAN)
+OWN_ONLY = "--own" in sys.argv          # only the check of the seed's own property (the first one planned)
+seeds = [a for a in sys.argv[1:] if a != "--own"] or sorted(PLAN)
 for seed in seeds:
     d = os.path.join(ROOT, "seeded", seed)
     meta = json.load(open(os.path.join(d, "meta.json")))
@@ -74,7 +83,7 @@ for seed in seeds:
     res = {}
     try:
         if rc == 0:
-            for c in PLAN[seed]:
+            for c in (PLAN[seed][:1] if OWN_ONLY else PLAN[seed]):
                 t0 = time.time()
                 p = subprocess.run([os.path.join(ROOT, "bin/check"), c, "--tier", "quick"], cwd=ROOT, capture_output=True, text=True, timeout=3600)
                 cls = []
